@@ -290,6 +290,11 @@ def make_fake_pool_class(SubProcPool):
             self.started_cmds += 1
             return self.driver.on_command_start(self, ctx)
 
+        def put_command(self, ctx, *a, **kw):
+            # when the caller issued the command (virtual time)
+            ctx._verif_put_vtime = self.driver.vclock.now
+            return super().put_command(ctx, *a, **kw)
+
         def process(self):
             self.driver.on_pool_process(self)
             super().process()
